@@ -20,14 +20,23 @@ from symex import show, walk, place_ty
 EXPLANATION = __doc__
 TRUSTED = ["rustc / extractor", "documented panic conditions of std / num-bigint / hmac / sha1 / rand APIs (allow-list in rules/c14.py)", "HMAC accepts keys of any length (Hmac::new_from_slice never fails)", "allocation failure and OS RNG failure are out of scope"]
 NOT_DECIDED = ["panics inside dependencies other than their documented preconditions", "srp-fast-math (rug) preconditions: configuration cannot be built here"]
-FLOORS = {"entry-points": 1, "bounds": 100, "overflow": 6, "div-by-zero": 5, "range-index": 8, "copy-len": 3, "reduced32": 4, "unwrap": 6, "bigint-precondition": 3, "swap": 2, "step-by": 2}
+FULL_FLOORS = {"entry-points": 1, "bounds": 100, "overflow": 6, "div-by-zero": 5, "range-index": 8, "copy-len": 3, "reduced32": 4, "unwrap": 6, "bigint-precondition": 3, "swap": 2, "step-by": 2}
+DEFAULT_FEATURES = {"srp-default-math", "tbc-header", "wrath-header", "integrity"}
+
+
+def floors_for(feats):
+    """the instance counts confirmed by reading are those of the default feature set; reduced
+    configurations (thorough tier) contain fewer functions: the core SRP obligations remain"""
+    if DEFAULT_FEATURES <= set(feats):
+        return FULL_FLOORS
+    return {"entry-points": 1, "bounds": 30, "overflow": 4, "div-by-zero": 3, "range-index": 5, "copy-len": 3, "reduced32": 4, "bigint-precondition": 3, "step-by": 2}
 
 PEER_MODULES = ("server", "client", "vanilla_header", "tbc_header", "wrath_header", "normalized_string")
 
 # calls that do not panic for any argument (documented), by resolved name or prefix
 NO_PANIC_EXACT = {
-    "<D as sha1::Digest>::chain_update", "<D as sha1::Digest>::finalize", "<D as sha1::Digest>::new", "<D as sha1::Digest>::update", "sha1::digest::FixedOutput::finalize_fixed",
-    "<T as hmac::Mac>::finalize", "<T as hmac::Mac>::update", "<T as hmac::Mac>::new_from_slice", "<T as hmac::Mac>::chain_update",
+    "<D as digest::Digest>::chain_update", "<D as digest::Digest>::finalize", "<D as digest::Digest>::new", "<D as digest::Digest>::update", "digest::FixedOutput::finalize_fixed",
+    "<T as digest::Mac>::finalize", "<T as digest::Mac>::update", "<T as digest::Mac>::new_from_slice", "<T as digest::Mac>::chain_update",
     "<T as std::convert::Into<U>>::into", "<T as std::convert::TryInto<U>>::try_into", "std::convert::Into::into", "std::convert::AsRef::as_ref",
     "<num_bigint::BigInt as std::cmp::PartialEq>::eq", "num_bigint::BigInt::from_bytes_le", "num_bigint::BigInt::to_bytes_le",
     "<rand::prelude::ThreadRng as rand::RngCore>::fill_bytes", "<rand::prelude::ThreadRng as rand::RngCore>::next_u32", "<rand::prelude::ThreadRng as rand::RngCore>::next_u64", "rand::thread_rng", "rand::random",
@@ -37,13 +46,13 @@ NO_PANIC_EXACT = {
     "std::iter::Iterator::enumerate", "std::iter::Iterator::zip", "std::iter::Iterator::skip", "std::iter::Iterator::cycle", "std::iter::Iterator::for_each", "std::iter::Iterator::next",
     "core::slice::<impl [T]>::iter", "core::slice::<impl [T]>::iter_mut", "core::slice::<impl [T]>::len", "core::slice::<impl [T]>::is_empty",
     "core::str::<impl str>::chars", "core::str::<impl str>::is_empty", "core::str::<impl str>::len", "std::str::from_utf8", "core::str::from_utf8",
-    "sha1::digest::CtOutput::<T>::into_bytes", "sha1::digest::generic_array::GenericArray::<T, N>::as_slice",
+    "digest::CtOutput::<T>::into_bytes", "digest::generic_array::GenericArray::<T, N>::as_slice",
     "std::array::<impl [T; N]>::as_slice", "std::array::<impl [T; N]>::as_mut_slice",
     "std::array::equality::<impl std::cmp::PartialEq<[U; N]> for [T; N]>::eq", "std::array::equality::<impl std::cmp::PartialEq<[U; N]> for [T; N]>::ne",
     "std::cmp::PartialEq::ne", "std::cmp::PartialEq::eq",
     "std::fmt::Formatter::<'a>::write_str", "std::io::Read::read_exact", "std::io::Write::write_all",
     "std::slice::<impl [T]>::to_vec", "std::vec::Vec::<T, A>::len",
-    "<sha1::digest::generic_array::GenericArray<T, N> as std::ops::Deref>::deref", "<std::vec::Vec<T, A> as std::ops::Deref>::deref", "<std::vec::Vec<T, A> as std::ops::DerefMut>::deref_mut",
+    "<digest::generic_array::GenericArray<T, N> as std::ops::Deref>::deref", "<std::vec::Vec<T, A> as std::ops::Deref>::deref", "<std::vec::Vec<T, A> as std::ops::DerefMut>::deref_mut",
     "std::clone::Clone::clone", "std::default::Default::default",
 }
 NO_PANIC_PREFIX = (
@@ -109,7 +118,8 @@ def check(ctx, rep):
     fb = ctx.fb
     world = ranges.World(ctx)
     roots = entry_points(ctx)
-    rep.check(len(roots) >= 90, "entry-points", "crate", "enumerated", "%d publicly reachable functions of the peer-facing modules are entry points" % len(roots), "only %d entry points found (expected >= 90): anchor lost" % len(roots))
+    need = 90 if DEFAULT_FEATURES <= ctx.features else 40
+    rep.check(len(roots) >= need, "entry-points", "crate", "enumerated", "%d publicly reachable functions of the peer-facing modules are entry points" % len(roots), "only %d entry points found (expected >= %d): anchor lost" % (len(roots), need))
     clo = closure(ctx, roots)
     rep.stats["closure"] = len(clo)
     r32_sinks = set(COPY_SITES) | {p for p in fb.bodies if p.endswith("as std::convert::From<bigint::Integer>>::from") and p.startswith("<key::")}
